@@ -126,11 +126,72 @@ pub struct SetInitAccounts {
     pub val: Mut<ValidatedAccount<HxZc>>,
 }
 
-/// The pathological nesting of `accounts_faithful`'s excluded class (see `downgrade_witness`).
+/// Pass-through modifiers over checking ones (client and IDL keep the inner flag since /repo 10a861d):
+/// depth 2, depth 3/4 mixes, under `Option` and arrays.
 #[derive(AccountSet, Debug)]
-pub struct SetDowngradeAccounts {
+pub struct SetPassAccounts {
     pub a: MaybeSigner<false, Signer<AccountInfo>>,
     pub b: MaybeMut<false, Mut<AccountInfo>>,
+    pub c: MaybeMut<false, MaybeSigner<false, Mut<Signer<SystemAccount>>>>,
+    pub d: Signer<MaybeMut<false, Mut<AccountInfo>>>,
+    pub e: MaybeSigner<false, MaybeMut<true, MaybeSigner<true, MaybeMut<false, AccountInfo>>>>,
+    pub f: Option<MaybeMut<false, Mut<SystemAccount>>>,
+    pub g: [MaybeSigner<false, Signer<AccountInfo>>; 2],
+    pub h: MaybeMut<false, MaybeSigner<false, AccountInfo>>,
+}
+
+pub const ADDR_A: Pubkey = Pubkey::new_from_array([0xA1; 32]);
+pub const ADDR_B: Pubkey = Pubkey::new_from_array([0xB2; 32]);
+pub const ADDR_C: Pubkey = Pubkey::new_from_array([0xC3; 32]);
+
+/// Multi-variant IDL: the un-named default variant plus the named variants "any" and "other"; per field
+/// every combination of un-named / named `address` and `arg` attributes.
+#[derive(AccountSet, Debug)]
+#[idl(id = "any", arg = u8)]
+#[idl(id = "other", arg = u16)]
+pub struct SetVariantsAccounts {
+    /// un-named address only
+    #[idl(address = ADDR_A)]
+    pub a: AccountInfo,
+    /// named address only
+    #[idl(id = "any", address = ADDR_B)]
+    pub b: Mut<AccountInfo>,
+    /// un-named and named, different addresses
+    #[idl(address = ADDR_A)]
+    #[idl(id = "any", address = ADDR_B)]
+    #[idl(id = "other", address = ADDR_C)]
+    pub c: Signer,
+    /// nothing
+    pub d: AccountInfo,
+    /// un-named arg only
+    #[validate(arg = Seeds(HxSeeds { owner: *self.a.pubkey() }))]
+    #[idl(arg = Seeds(FindHxSeeds { owner: seed_path("a") }))]
+    pub e: Seeded<Account<HxUnsized>>,
+    /// named arg only
+    #[validate(arg = Seeds(HxSeeds { owner: *self.a.pubkey() }))]
+    #[idl(id = "any", arg = Seeds(FindHxSeeds { owner: seed_path("a") }))]
+    pub f: Seeded<Account<HxUnsized>>,
+    /// named ("other") address, un-named arg
+    #[validate(arg = Seeds(HxSeeds { owner: *self.a.pubkey() }))]
+    #[idl(arg = Seeds(FindHxSeeds { owner: seed_path("d") }))]
+    #[idl(id = "other", address = ADDR_C)]
+    pub g: Mut<Seeded<Account<HxUnsized>>>,
+    /// named arg + address in one attribute, un-named address
+    #[validate(arg = Seeds(HxSeeds { owner: *self.a.pubkey() }))]
+    #[idl(address = ADDR_B)]
+    #[idl(id = "any", arg = Seeds(FindHxSeeds { owner: seed_path("d") }), address = ADDR_A)]
+    pub h: Seeded<Account<HxUnsized>>,
+}
+
+/// Second multi-variant set: only a named variant carries anything; default idl skipped fields bare.
+#[derive(AccountSet, Debug)]
+#[idl(id = "pinned", arg = bool)]
+pub struct SetVariants2Accounts {
+    #[idl(id = "pinned", address = ADDR_C)]
+    pub x: Signer<Mut<AccountInfo>>,
+    #[idl(address = ADDR_A)]
+    pub y: Mut<AccountInfo>,
+    pub z: Signer,
 }
 
 /// The one-field account set (keeps its struct definition in the IDL since /repo 411da64).
@@ -196,6 +257,7 @@ ix!(SetMany, SetManyAccounts);
 ix!(SetNested, SetNestedAccounts);
 ix!(SetInit, SetInitAccounts);
 ix!(SetOne, SetOneAccounts);
+ix!(SetPass, SetPassAccounts);
 ix!(SetManyMid, SetManyMidAccounts);
 ix!(SetRestMid, SetRestMidAccounts);
 ix!(SetTwoMany, SetTwoManyAccounts);
@@ -220,6 +282,7 @@ pub enum HxIdlInstructionSet {
     SetNested(SetNested),
     SetInit(SetInit),
     SetOne(SetOne),
+    SetPass(SetPass),
     SetManyMid(SetManyMid),
     SetRestMid(SetRestMid),
     SetTwoMany(SetTwoMany),
@@ -342,6 +405,79 @@ pub fn set_table() -> Vec<SetEntry> {
             "(struct (inner (struct (who (signer 1 info)) (list (array (mut 1 info) 2)))) (after info))".to_string(),
             star_frame::star_frame_idl::item_source::<SetNestedManyMid>(),
         ),
+        e(
+            "passthrough",
+            "(struct (a (signer 0 (signer 1 info))) (b (mut 0 (mut 1 info))) (c (mut 0 (signer 0 (mut 1 (signer 1 info))))) (d (signer 1 (mut 0 (mut 1 info)))) (e (signer 0 (mut 1 (signer 1 (mut 0 info))))) (f (opt (mut 0 (mut 1 info)))) (g (array (signer 0 (signer 1 info)) 2)) (h (mut 0 (signer 0 info))))".to_string(),
+            star_frame::star_frame_idl::item_source::<SetPass>(),
+        ),
         e("empty", "(struct)".to_string(), star_frame::star_frame_idl::item_source::<SetEmpty>()),
+    ]
+}
+
+// ------------------------------------------------------------------------------------------------ multi-variant sets
+/// One `#[idl(..)]` attribute as written in the source above: (variant id, passes Seeds, address).
+pub type Attr = (Option<&'static str>, bool, Option<Pubkey>);
+pub struct VSet {
+    pub name: &'static str,
+    /// (field, attributes in source order, the field's account set WITHOUT Seeds as the model sees it)
+    pub fields: Vec<(&'static str, Vec<Attr>, &'static str)>,
+    pub variants: Vec<Option<&'static str>>,
+    /// the REAL IDL of a variant (fresh definition per call: both variants register the same source key)
+    pub idl: fn(Option<&str>) -> Option<(star_frame::star_frame_idl::IdlDefinition, star_frame::star_frame_idl::account_set::IdlAccountSetDef)>,
+    pub metas: fn(bool) -> Vec<crate::sx::Slot>,
+}
+
+pub fn vset_table() -> Vec<VSet> {
+    use star_frame::{idl::AccountSetToIdl, star_frame_idl::IdlDefinition};
+    fn v1(id: Option<&str>) -> Option<(IdlDefinition, star_frame::star_frame_idl::account_set::IdlAccountSetDef)> {
+        let mut def = IdlDefinition::default();
+        let set = match id {
+            None => <SetVariantsAccounts as AccountSetToIdl<()>>::account_set_to_idl(&mut def, ()),
+            Some("any") => <SetVariantsAccounts as AccountSetToIdl<u8>>::account_set_to_idl(&mut def, 0u8),
+            Some("other") => <SetVariantsAccounts as AccountSetToIdl<u16>>::account_set_to_idl(&mut def, 0u16),
+            _ => return None,
+        }
+        .ok()?;
+        Some((def, set))
+    }
+    fn v2(id: Option<&str>) -> Option<(IdlDefinition, star_frame::star_frame_idl::account_set::IdlAccountSetDef)> {
+        let mut def = IdlDefinition::default();
+        let set = match id {
+            None => <SetVariants2Accounts as AccountSetToIdl<()>>::account_set_to_idl(&mut def, ()),
+            Some("pinned") => <SetVariants2Accounts as AccountSetToIdl<bool>>::account_set_to_idl(&mut def, true),
+            _ => return None,
+        }
+        .ok()?;
+        Some((def, set))
+    }
+    let (a, b, c) = (Some(ADDR_A), Some(ADDR_B), Some(ADDR_C));
+    vec![
+        VSet {
+            name: "variants",
+            fields: vec![
+                ("a", vec![(None, false, a)], "info"),
+                ("b", vec![(Some("any"), false, b)], "(mut 1 info)"),
+                ("c", vec![(None, false, a), (Some("any"), false, b), (Some("other"), false, c)], "(signer 1 info)"),
+                ("d", vec![], "info"),
+                ("e", vec![(None, true, None)], "info"),
+                ("f", vec![(Some("any"), true, None)], "info"),
+                ("g", vec![(None, true, None), (Some("other"), false, c)], "(mut 1 info)"),
+                ("h", vec![(None, false, b), (Some("any"), true, a)], "info"),
+            ],
+            variants: vec![None, Some("any"), Some("other")],
+            idl: v1,
+            metas: |present| crate::shipped::metas_of::<SetVariantsAccounts>(&crate::HxIdl::ID, present),
+        },
+        VSet {
+            name: "variants2",
+            fields: vec![
+                ("x", vec![(Some("pinned"), false, c)], "(signer 1 (mut 1 info))"),
+                ("y", vec![(None, false, a)], "(mut 1 info)"),
+                ("z", vec![], "(signer 1 info)"),
+            ],
+            variants: vec![None, Some("pinned")],
+            idl: v2,
+            metas: |present| crate::shipped::metas_of::<SetVariants2Accounts>(&crate::HxIdl::ID, present),
+        },
     ]
 }
